@@ -111,6 +111,11 @@ def class_specs(draw, name, earlier, allow_hooks=True):
         params.append({'n': n, 't': t, 'd': d})
     c['params'] = params
     c['extra'] = draw(st.integers(0, 5)) == 0
+    dparams = [q for q in params if q['d'] is not None and isinstance(q['t'], str)]
+    if dparams and draw(st.integers(0, 2)) == 0:
+        # the documented way to override a default for dumping
+        q = draw(st.sampled_from(dparams))
+        c['defaults_override'] = {q['n']: draw(_scalar_default(q['t']))}
     if kind == 'abstract':
         c['registered'] = draw(st.sampled_from([True, True, False]))
     if allow_hooks:
@@ -125,7 +130,7 @@ def class_specs(draw, name, earlier, allow_hooks=True):
                 c['swe'] = {'from': params[0]['n'], 'to': 'alias_' + params[0]['n']}
         elif h == 2:
             c['sav'] = 'raise'
-        elif h == 3 and any(p['d'] is not None for p in params):
+        elif h in (3, 4) and (any(p['d'] is not None for p in params) or c['base']):
             c['swe'] = 'defaults'
         c['rec'] = draw(st.integers(0, 7)) == 0
         c['attrs'] = draw(st.integers(0, 9)) == 0
